@@ -248,6 +248,102 @@ def strat_nndvi(tier):
     return s()
 
 
+# ------------------------------------------------------------ large batches
+def expand(rows, k):
+    """k shifted copies of a small block (keeps the drawn data small while the batch has thousands of rows)"""
+    return [[v + (j % 7) / 64.0 for v in r] for j in range(k) for r in rows]
+
+
+def big_batch(spec):
+    return expand(spec["a"], spec["ka"]) + expand(spec["b"], spec["kb"])
+
+
+def reorder(rows, how):
+    if how == "reverse":
+        return rows[::-1]
+    if how.startswith("rotate:"):
+        r = int(how.split(":")[1]) % max(1, len(rows))
+        return rows[r:] + rows[:r]
+    if how == "interleave":
+        h = len(rows) // 2
+        out = []
+        for i in range(h):
+            out += [rows[i], rows[h + i]]
+        return out + rows[2 * h :]
+    return rows
+
+
+def check_kdq_large(case, ctx):
+    from menelaus.data_drift import KdqTreeBatch
+
+    p = case["params"]
+    base = case["seed_base"]
+    with sut(detector="KdqTreeBatch"):
+        a = KdqTreeBatch(**p)
+        b = KdqTreeBatch(**p)
+    ndrift = 0
+    sizes = []
+    for i, (spec, how) in enumerate(zip(case["batches"], case["orders"])):
+        rows = big_batch(spec)
+        sizes.append(len(rows))
+        X = np.array(rows, dtype=float)
+        Y = np.array(reorder(rows, how), dtype=float)
+        with sut(detector="KdqTreeBatch"):
+            np.random.seed(base + i)
+            (a.set_reference if i == 0 else a.update)(X)
+            np.random.seed(base + i)
+            (b.set_reference if i == 0 else b.update)(Y)
+            ra = [[int(x), int(y), int(z)] for x, y, z in zip(*[a.to_plotly_dataframe()[c] for c in ("depth", "cell_count", "count_diff")])]
+            rb = [[int(x), int(y), int(z)] for x, y, z in zip(*[b.to_plotly_dataframe()[c] for c in ("depth", "cell_count", "count_diff")])]
+        if i == 0:
+            continue
+        ka, kb = leaf_kl(ra), leaf_kl(rb)
+        if ra != rb or not abs(ka - kb) <= TOL:
+            c = dict(case)
+            c["batches"] = case["batches"][: i + 1]
+            c["orders"] = case["orders"][: i + 1]
+            raise Violation(
+                "divergence-depends-on-row-order",
+                f"KdqTreeBatch({p}) batch {i} ({len(rows)} rows, reordered by {how}): leaf divergence {ka} vs {kb}",
+                detector="KdqTreeBatch",
+                case=c,
+            )
+        if a.drift_state != b.drift_state:
+            raise Violation("decision-depends-on-row-order", f"KdqTreeBatch({p}) batch {i} ({len(rows)} rows): {a.drift_state!r} vs {b.drift_state!r}", detector="KdqTreeBatch")
+        if sum(r[1] + r[2] for r in ra if r[0] == 0) != len(rows):
+            raise Violation("kdq-large-batch-count", f"KdqTreeBatch({p}) batch {i}: root test count {ra[0][1] + ra[0][2]} for a batch of {len(rows)} rows", detector="KdqTreeBatch")
+        ndrift += a.drift_state == "drift"
+    ctx.label("KdqTreeBatch-large", f"max-rows>{(max(sizes) // 1024) * 1024}")
+    if max(sizes[1:] or [0]) > 4096:
+        ctx.label("nontrivial")
+    if ndrift:
+        ctx.label("drift")
+
+
+def strat_kdq_large(tier):
+    @st.composite
+    def s(draw):
+        d = draw(st.integers(1, 2))
+        p = {"alpha": draw(st.sampled_from([0.05, 0.2, 0.5])), "bootstrap_samples": draw(st.integers(3, 5)), "count_ubound": draw(st.sampled_from([50, 200, 1000]))}
+        nb = draw(st.integers(2, 4))
+        batches, orders = [], []
+        for i in range(nb):
+            a = draw(vs.batch(d, 8, 24, [draw(st.sampled_from([0, 0, 3])) for _ in range(d)], 2, 16))
+            b = draw(vs.batch(d, 8, 24, [0] * d, 2, 16))
+            target = draw(st.sampled_from([300, 1025, 4097, 4200, 6000, 8193, 9000])) if i else draw(st.sampled_from([200, 2000, 5000]))
+            ka = max(1, int(target * draw(st.sampled_from([0.2, 0.3, 0.5])) / len(a)))
+            kb = max(1, (target - ka * len(a)) // len(b) + 1)
+            batches.append({"a": a, "ka": ka, "b": b, "kb": kb})
+            orders.append(draw(st.sampled_from(["reverse", "reverse", "interleave", "rotate:%d" % draw(st.integers(1, 5000))])))
+        return {"params": p, "batches": batches, "orders": orders, "seed_base": draw(vs.seed_base)}
+
+    return s()
+
+
+def _desc_large(c):
+    return {"params": c["params"], "batch_rows": [len(b["a"]) * b["ka"] + len(b["b"]) * b["kb"] for b in c["batches"]], "orders": c["orders"]}
+
+
 def _desc(c):
     return {"det": c["det"], "params": c["params"], "batch_sizes": [len(b) for b in c["items"]], "perm_of_first_test_batch": c["perms"][1] if len(c["perms"]) > 1 else None}
 
@@ -261,13 +357,14 @@ PROPERTY = {
         "current_distance equal within 1e-12 on every batch; detect_batch=3: thresholds and the full decision sequence equal (a batch whose "
         "public margin |epsilon-beta| is within 1e-9 ends the comparison); detect_batch=2: compared up to the first batch whose "
         "bootstrap-dependent decisions differ. KdqTreeBatch: node counts from to_plotly_dataframe() identical, leaf divergence equal, "
-        "decisions equal. NNDVI: NNPS distance (recomputed through the public partitioner) equal, decisions equal. Non-trivial = a "
+        "decisions equal; kdq_batch_large repeats this with batches of 300-9000 rows (two tiled blocks, sizes around 1024 / 4096 / 8192, reordered by reversal, rotation or interleaving). NNDVI: NNPS distance (recomputed through the public partitioner) equal, decisions equal. Non-trivial = a "
         "non-identity permutation of a batch with >= 2 distinct rows in a history with >= 1 drift."
     ),
     "assumptions": ["HDDDM/CDBD detect_batch=1 is outside the property (reference split by position)"],
     "subchecks": [
         SubCheck("hdm", check_hdm, strategy=strat_hdm, nontrivial=lambda L: "nontrivial" in L, quick=300, thorough=6000, shards_quick=8, describe=_desc),
         SubCheck("kdq_batch", check_kdq, strategy=strat_kdq, nontrivial=lambda L: "nontrivial" in L, quick=150, thorough=3000, shards_quick=8, describe=_desc),
+        SubCheck("kdq_batch_large", check_kdq_large, strategy=strat_kdq_large, nontrivial=lambda L: "nontrivial" in L, quick=48, thorough=800, shards_quick=16, describe=_desc_large),
         SubCheck("nndvi", check_nndvi, strategy=strat_nndvi, nontrivial=lambda L: "nontrivial" in L, quick=250, thorough=5000, shards_quick=8, describe=_desc),
     ],
 }
